@@ -114,7 +114,7 @@ def dispatch(ex, e, text, handler, recv, args, kwargs, st):
                 if r.kind == "raise":
                     outs.append(r)
                     continue
-                if isinstance(r.val, VGlobal):
+                if isinstance(r.val, VGlobal) and not getattr(handler, "pass_receiver", False):
                     outs += apply_handler(ex, handler, args, kwargs, r.st, text)
                 else:
                     outs += apply_handler(ex, handler, [r.val] + args, kwargs, r.st, text)
@@ -188,7 +188,7 @@ def inline_call(ex, h: Inline, args, kwargs, st, text):
     saved_env = st.env
     saved_bind = ex.bindings
     st.env = env
-    ex.bindings = {}
+    ex.bindings = dict(saved_bind) if getattr(ex.spec, "bind_in_inlined", False) else {}
     ex.inline_depth += 1
     ex.fn_stack.append(h.qualname)
     try:
